@@ -54,8 +54,49 @@ def readAny (k : K) (fd n : Nat) : Res Bytes :=
 def writeAny (k : K) (fd : Nat) (bs : Bytes) : Res Nat :=
   match getOfd k fd with
   | some (_, o) =>
-    if o.pipe && o.wr && !pipeEndOpen k o.path false then .err .EPIPE else write k fd bs
+    if o.pipe && o.wr && !pipeEndOpen k o.path false then .err .EPIPE
+    else if o.pipe && o.wr && o.full then .err .EAGAIN
+    else write k fd bs
   | none => write k fd bs
+
+/-- what `fill` leaves in the pipe for later reads (`x` bytes; the real amount is not modelled) -/
+def fillBytes : Bytes := List.replicate 1024 120
+
+/-- the harness's `fill`: non-blocking writes until the kernel refuses even one byte.  The capacity is
+    not modelled (it differs between the two implementations); what is kept is the fact "full" on the
+    write end's open file description, and some bytes to read. -/
+def fillPipe (k : K) (fd : Nat) : Res Unit :=
+  match getOfd k fd with
+  | none => .err .EBADF
+  | some (i, o) =>
+    if !o.wr then .err .EBADF
+    else if !o.pipe then .err .EINVAL
+    else if !pipeEndOpen k o.path false then .err .EPIPE
+    else
+      match lookup k.tree o.path with
+      | some (.reg m c) =>
+        .ok () { (updOfd k i { o with full := true }) with
+                 tree := insert k.tree o.path (.reg m (c ++ fillBytes)) }
+      | _ => .err .EINVAL
+
+/-- `select` for writing with a zero timeout.  A pipe's write end is ready when a write would not block:
+    there is room — or there is no reader left, in which case the write fails at once with EPIPE.  The
+    second half is what releases a writer that is blocked on a full pipe when the last reader goes away. -/
+def writeReady (k : K) (fd : Nat) : Except Errno Bool :=
+  match getOfd k fd with
+  | none => .error .EBADF
+  | some (_, o) => .ok (if o.pipe && o.wr then !pipeEndOpen k o.path false || !o.full else true)
+
+/-- `select` for reading with a zero timeout: data, or end-of-file (no writer left) -/
+def readReady (k : K) (fd : Nat) : Except Errno Bool :=
+  match getOfd k fd with
+  | none => .error .EBADF
+  | some (_, o) =>
+    if o.pipe && o.rd then
+      match lookup k.tree o.path with
+      | some (.reg _ c) => .ok (!(readAt c o.off 1).isEmpty || !pipeEndOpen k o.path true)
+      | _ => .ok true
+    else .ok true
 
 /-- `lseek` on any descriptor -/
 def seekAny (k : K) (fd : Nat) (w : Whence) (d : Int) : Res (Option Nat) :=
